@@ -97,7 +97,7 @@ func init() {
 		Cfg:        dsim.Config{MaxChaosSteps: 140, MaxStableSteps: 4000, Horizon: 8 * time.Second},
 		Real:       []string{"transport/controller.Controller (EstablishLinkWithPeer resolver incl. source filter, HandleLinkEstablished self-dial check, mountedLink, mountedStream, HandleIncomingStream, header reader)", "link.EstablishLinkWithPeer / HandleMountedStream directives", "controllerbus bus + directive controller", "peer controllers for both local identities"},
 		Stub:       []string{"simlink transports: links, their callbacks and the remote ends of streams are played by the harness", "harness HandleMountedStream handler controller", "util/broadcast lock instrumented"},
-		FaultKinds: []string{"fault:self-link", "fault:link-lost", "fault:directive-released", "fault:stranger-source", "fault:clock-jump"},
+		FaultKinds: []string{"fault:self-link", "fault:link-lost", "fault:directive-released", "fault:stranger-source", "fault:clock-jump", "fault:transport-starts-late"},
 	})
 }
 
@@ -113,7 +113,17 @@ func (w *c04World) Setup(s *dsim.Sim) {
 	broadcast.SimSlowPaths = 0
 	w.net = node.NewNet(s)
 	w.nd = w.net.AddNode("N", "S1", "S2")
-	w.tcs = []*node.TC{w.nd.AddTransport("t1", "S1"), w.nd.AddTransport("t2", "S2")}
+	// in some runs the first transport controller starts slowly: requests arrive while it
+	// has no transport yet (start-up window)
+	arm := []int{0, 40, 100}[t.Draw(3, "arm-pct")]
+	armSites := []string{"bl:bifrost/transport/controller/transport-handler.go", "bl:bifrost/transport/controller/establish-link.go", "bl:bifrost/transport/controller/controller.go", "go:transport/controller/", "harness/transport-ctor"}
+	if t.Bool(1, 3, "late-transport") {
+		s.Count("fault:transport-starts-late")
+		s.AlwaysArm = []string{"harness/transport-ctor"}
+		w.tcs = []*node.TC{w.nd.AddTransportLate("t1", "S1"), w.nd.AddTransport("t2", "S2")}
+	} else {
+		w.tcs = []*node.TC{w.nd.AddTransport("t1", "S1"), w.nd.AddTransport("t2", "S2")}
+	}
 	w.live = map[*node.SimLink]bool{}
 	w.busy = map[*node.SimLink]int{}
 	w.maxOps = 4 + t.Draw(22, "max-ops")
@@ -135,8 +145,7 @@ func (w *c04World) Setup(s *dsim.Sim) {
 		d.ref = ref
 		w.dirs = append(w.dirs, d)
 	}
-	arm := []int{0, 40, 100}[t.Draw(3, "arm-pct")]
-	s.ArmFraction(arm, []string{"bl:bifrost/transport/controller/transport-handler.go", "bl:bifrost/transport/controller/establish-link.go", "bl:bifrost/transport/controller/controller.go", "go:transport/controller/"})
+	s.ArmFraction(arm, armSites)
 	if t.Bool(1, 2, "holder-park") {
 		// a reader parked while holding the controller lock makes the TryHoldLock pre-check
 		// of the directive handler fail (the source filter must then be applied later)
@@ -207,6 +216,9 @@ func (w *c04World) Actions(s *dsim.Sim, add func(dsim.Action)) {
 	add(dsim.Action{Name: "3op:establish", Weight: 8, Fire: func() {
 		w.ops++
 		tc := w.tcs[t.Draw(len(w.tcs), "tc")]
+		if tc.Tpt == nil {
+			return // this transport is still being constructed
+		}
 		remotes := []string{"D1", "D2", "D3", "S1", "S2"}
 		r := remotes[t.Draw(len(remotes), "remote")]
 		if tc.Name == "t3" && t.Bool(1, 2, "self") {
